@@ -72,7 +72,7 @@ PROPS["C05"] = dict(
 
 PROPS["C04"] = dict(
     level="other", claimed=True,
-    level_text="Kani on the real channel code with doubles (Air, hasher, coin): every ProverChannel send / commit records the message in the proof and reseeds the coin with exactly that message; the seed is hash(context || public inputs); query positions come from draw_integers with the ground nonce; FriVerifier::new reseeds-then-draws per commitment in order; the coin's own state-transition contract is C19's. Native bounded stand-in: the real prover and verifier run with a recording coin and both operation sequences are compared with the transcript the protocol requires (absorbed values recomputed from the proof bytes, GKR randomness before auxiliary randomness, every challenge after the messages that precede it, identical challenge values), on single-segment, auxiliary and Lagrange-kernel traces over three extension degrees and two hashers.",
+    level_text="Kani on the real channel code with doubles (Air, hasher, coin): every ProverChannel send / commit records the message in the proof and reseeds the coin with exactly that message; the seed is hash(context || public inputs); query positions come from draw_integers with the ground nonce; FriVerifier::new reseeds-then-draws per commitment in order; the remainder polynomial carried in the proof is the one whose commitment was absorbed (also for layer-less proofs); the coin's own state-transition contract is C19's. Native bounded stand-in: the real prover and verifier run with a recording coin and both operation sequences are compared with the transcript the protocol requires (absorbed values recomputed from the proof bytes, GKR randomness before auxiliary randomness, every challenge after the messages that precede it, identical challenge values), on single-segment, auxiliary and Lagrange-kernel traces over three extension degrees and two hashers.",
     level_note="Prover::generate_proof and perform_verification are generic over user types and out of both verifiers' reach: their order of coin operations is observed on the stand-in's grid, not proved. One asymmetry is tolerated: the verifier draws an unused folding challenge after the FRI remainder commitment (DESIGN.md 9.1).",
     explanation=MIX)
 PROPS["C03"] = dict(
